@@ -28,6 +28,10 @@ const (
 
 func (e *Env) Addr(label string) types.Address {
 	c, v := e.C, e.V
+	if len(v.Hot) > 0 && c.Weighted(label+".hot", 2, 1) == 1 {
+		c.Class("addr-contract")
+		return v.Hot[c.Pick(label+".hotidx", len(v.Hot))]
+	}
 	switch c.Weighted(label+".kind", 4, 2, 5, 2, 1, 1) {
 	case 0:
 		c.Class("addr-busy")
@@ -78,6 +82,35 @@ func (e *Env) Hash(label string) types.Hash {
 		c.Class("hash-zero")
 		return types.ZeroHash
 	}
+}
+
+const keyNewToken = "C18/unconfirmed-token-error"
+
+// unconfirmedToken reports whether the chain of addr holds a pooled block in a token that only an
+// unconfirmed block of the token contract has created.
+func (e *Env) unconfirmedToken(addr types.Address) bool {
+	ms := e.V.N.Chain.GetFrontierMomentumStore()
+	for _, b := range e.V.PooledOf(addr) {
+		if b.TokenStandard == types.ZeroTokenStandard {
+			continue
+		}
+		if t, err := ms.GetTokenInfoByTs(b.TokenStandard); err != nil || t == nil {
+			return true
+		}
+	}
+	return false
+}
+
+// BlockErrOK is ErrOK for the methods that return blocks of one account: a request that touches a
+// pooled block in a not yet confirmed token fails as a whole ("data non existent").
+func (e *Env) BlockErrOK(k Call, a Answer, addr types.Address, outsideLimits bool) {
+	if !outsideLimits && a.Err == "data non existent" && e.unconfirmedToken(addr) {
+		if e.C.Failf(keyNewToken, "%s failed (%s): the chain holds an unconfirmed block in a token issued by a not yet confirmed block of the token contract", k, a.Err) {
+			e.C.Class("known-unconfirmed-token-hit")
+			return
+		}
+	}
+	e.ErrOK(k, a, outsideLimits)
 }
 
 // ErrOK classifies an error answer.
@@ -362,7 +395,7 @@ func mAccountBlocksByHeight(e *Env) {
 	c.Note("%s on %s (chain of %d)", k, v.Name, len(truth))
 	a := e.Do(k)
 	if a.Err != "" {
-		e.ErrOK(k, a, h == 0 || cnt > api.RpcMaxCountSize)
+		e.BlockErrOK(k, a, addr, h == 0 || cnt > api.RpcMaxCountSize)
 		return
 	}
 	o := e.ParseList(k, a, idField("hash"))
@@ -380,7 +413,7 @@ func mAccountBlocksByPage(e *Env) {
 	c.Note("%s on %s (chain of %d)", k, v.Name, len(truth))
 	a := e.Do(k)
 	if a.Err != "" {
-		e.ErrOK(k, a, pageErrorAllowed(size, api.RpcMaxPageSize))
+		e.BlockErrOK(k, a, addr, pageErrorAllowed(size, api.RpcMaxPageSize))
 		return
 	}
 	o := e.ParseList(k, a, idField("hash"))
@@ -398,7 +431,7 @@ func mUnconfirmed(e *Env) {
 	c.Note("%s on %s (%d pooled)", k, v.Name, len(truth))
 	a := e.Do(k)
 	if a.Err != "" {
-		e.ErrOK(k, a, pageErrorAllowed(size, api.RpcMaxPageSize))
+		e.BlockErrOK(k, a, addr, pageErrorAllowed(size, api.RpcMaxPageSize))
 		return
 	}
 	o := e.ParseList(k, a, idField("hash"))
@@ -673,9 +706,8 @@ func mFrontiers(e *Env) {
 	c.Note("%s on %s", k, v.Name)
 	a := e.Do(k)
 	if a.Err != "" {
-		c.Failf(keyError, "%s failed: %s", k, a.Err)
-	}
-	if string(a.JSON) == "null" {
+		e.BlockErrOK(k, a, addr, false)
+	} else if string(a.JSON) == "null" {
 		if len(truth) > 0 {
 			c.Failf(keyContent, "%s answered null, the chain has %d blocks", k, len(truth))
 		}
@@ -1317,6 +1349,10 @@ func walkLedger(e *Env) {
 		name = k.Method
 		a := e.Do(k)
 		if a.Err != "" {
+			if addr, ok := k.Args[0].(types.Address); ok {
+				e.BlockErrOK(k, a, addr, false)
+				return
+			}
 			c.Failf(keyError, "%s failed within the advertised limits: %s", k, a.Err)
 		}
 		o := e.ParseList(k, a, idField("hash"))
